@@ -131,6 +131,22 @@ def run(ctx, res):
         c['sources'][0].update({'cols': ['id', 'c1', 'c2', 'c3'], 'rows': rows, 'dtypes': {'c1': 'Int64', 'c2': 'boolean', 'c3': 'string'}})
         c['sources'][0].pop('null_style', None)
         cases.append(c)
+    # a NULL in a column that only a graph map reads suppresses the statement in BOTH output formats (N-TRIPLES does not show the graph, the
+    # statement still has no placement)
+    from .c02 import gen_graph_only_null_case
+    cases += [gen_graph_only_null_case(ctx.rng) for _ in range(ctx.scale(14, 150))]
+    # na_values name cell TEXTS: a numeric-looking token is a null also where the source delivers numbers (database integers, JSON numbers, Parquet)
+    for _ in range(ctx.scale(12, 120)):
+        kind = ctx.rng.choice(['sqltable', 'sqlquery', 'json', 'parquet', 'feather'])
+        ints = [7, 10, -1, -999, 5, 0]
+        rows = [[str(i + 1), ['i', ctx.rng.choice(ints)], ['i', ctx.rng.choice(ints)]] for i in range(ctx.rng.choice([2, 3, 5]))]
+        src = {'key': 'S0', 'kind': kind, 'cols': ['id', 'n', 'm'], 'rows': rows}
+        if kind in ('sqltable', 'sqlquery'):
+            src['types'] = ['TEXT', 'INTEGER', 'INTEGER']
+        doc = [{'id': EX + 'tm/T', 'src': 'S0', 'nonasserted': False, 'subj': tm('templ', EX + 'r/{id}'), 'sjoins': [], 'classes': [], 'sgraphs': [],
+                'poms': [{'preds': [tm('const', EX + 'p/n')], 'objs': [{'m': tm('ref', 'n'), 'lang': None, 'dt': None, 'joins': []}], 'graphs': []},
+                         {'preds': [tm('const', EX + 'p/m')], 'objs': [{'m': tm('templ', EX + 'o/{m}'), 'lang': None, 'dt': None, 'joins': []}], 'graphs': []}]}]
+        cases.append({'cfg': {'nquads': False, 'mode': 'NO', 'na': ctx.rng.choice([['-1'], ['-999', '7'], ['0', ''], ['10', 'nan']])}, 'sources': [src], 'doc': doc})
     family.run_family(ctx, res, cases, features, style_fn=style_fn)
     # second oracle on the same cases, implementation only: a null word that is not in the data must not appear
     batch = family.Batch(ctx)
